@@ -236,6 +236,24 @@ def sib_fragment_node_names(repo, tier="quick"):
                 pos = callee.positional_params.index(param) if param in callee.positional_params else None
                 a = next((k.value for k in c.keywords if k.arg == param), c.args[pos] if pos is not None and pos < len(c.args) else None)
                 if a is None:
+                    # handed over in a dict of keyword arguments: f(x, **options) with options a literal / dict(...) bound once
+                    for k in c.keywords:
+                        if k.arg is None:
+                            dv = k.value
+                            if isinstance(dv, ast.Name):
+                                vals = [d.value for d in caller.flow.defs if d.var == dv.id and d.kind == "assign" and d.value is not None]
+                                dv = vals[0] if len(vals) == 1 else None
+                            if isinstance(dv, ast.Dict):
+                                for kk, vv in zip(dv.keys, dv.values):
+                                    if isinstance(kk, ast.Constant) and kk.value == param:
+                                        a = vv
+                            elif isinstance(dv, ast.Call) and isinstance(dv.func, ast.Name) and dv.func.id == "dict":
+                                for kw in dv.keywords:
+                                    if kw.arg == param:
+                                        a = kw.value
+                            else:
+                                a = ast.Name(id="<**%s>" % ast.unparse(k.value), ctx=ast.Load()) if dv is None else a
+                if a is None:
                     d = callee.defaults().get(param)
                     out.append(("const", d.value) if isinstance(d, ast.Constant) else None)
                 elif isinstance(a, ast.Constant):
@@ -349,6 +367,13 @@ def exc_fragment_strict(repo, tier="quick"):
             parity = True
         if isinstance(sub, ast.Call) and isinstance(sub.func, ast.Attribute) and sub.func.attr == "symmetric_difference_update":
             parity = True
+        # the toggle written out:  if token in s: s.remove(token)  else: s.add(token)
+        if isinstance(sub, ast.If) and isinstance(sub.test, ast.Compare) and len(sub.test.ops) == 1 and isinstance(sub.test.ops[0], (ast.In, ast.NotIn)) and \
+                isinstance(sub.test.comparators[0], ast.Name):
+            sname = sub.test.comparators[0].id
+            meths = {x.func.attr for x in ast.walk(sub) if isinstance(x, ast.Call) and isinstance(x.func, ast.Attribute) and isinstance(x.func.value, ast.Name) and x.func.value.id == sname}
+            if "add" in meths and meths & {"remove", "discard"} and sub.orelse:
+                parity = True
         if isinstance(sub, ast.BinOp) and isinstance(sub.op, ast.Mod) and isinstance(sub.right, ast.Constant) and sub.right.value == 2 and \
                 {x.id for x in ast.walk(sub) if isinstance(x, ast.Name)} & (derived | {x.id for c_ in ast.walk(fi.node) if isinstance(c_, ast.comprehension)
                                                                                   for x in ast.walk(c_.target) if isinstance(x, ast.Name)}):
